@@ -72,6 +72,6 @@ func c17ConsCells(t *testing.T) {
 	})
 	cell(t, "C17", "C17.cons", "cons/I", nCases(40, 1200), func(rt *rapid.T) Case {
 		r, cc := rapid.IntRange(1, 6).Draw(rt, "r"), rapid.IntRange(1, 6).Draw(rt, "c")
-		return &C17Cons{Op: "I", Shape: []int{r, cc}, K: rapid.IntRange(-(r - 1), cc-1).Draw(rt, "k")}
+		return &C17Cons{Op: "I", Shape: []int{r, cc}, K: rapid.IntRange(-(r-1), cc-1).Draw(rt, "k")}
 	})
 }
